@@ -2,12 +2,10 @@
    from the real segmenter), its shaped runs, and a sequence of wrapping calls made on ONE LineWrapper
    with the SAME input runs (so that glyph edits made through aliasing slices are visible).
    kind 1 = the model differs from what the implementation did (correspondence);
-   kind 2 = C02 oracle (check_conservation) fails on the implementation's output;
-   kind 10 = C02 oracle fails only on "advance = sum of glyph advances", and only for runs that are
-             whole input runs carrying the advance they had on entry AND that were placed without passing through cutRun
-             (appended uncut by fillUntil: not the last text run of their line; or the single-run fast path on an input
-             already edited by an earlier call) - known finding F6.  A stale Advance on the last text run of a line is a
-             violation (kind 2): that run is the candidate cutRun produced. *)
+   kind 2 = C02 oracle (check_conservation) fails on the implementation's output, including "advance = sum of glyph
+            advances" for every text run of every returned line on the store as the call left it (the former
+            classification kind 10 of finding F6 - a whole input run placed with the stale Advance it had on entry - is
+            gone: the library recomputes the advance of a run placed whole, and a stale Advance is a violation). *)
 From TV Require Export Model.Wrap Spec.Wrap.
 
 Definition G := mkGlyph.
@@ -137,29 +135,11 @@ Definition case_wf (c : case) : bool :=
   wf_runs (case_store c) (case_runs c) (case_n c) && adv_consistent (case_store c) (case_runs c)
   && (1 <=? zlen (k_attrs c)).
 
-(* F6: a whole input run returned with the advance it had on entry while its glyphs were edited through an alias *)
-Definition stale_whole_run (c : case) (r : out) : bool :=
-  let inp := znth out_zero (case_runs c) (o_src r) in
-  (o_off r =? o_off inp) && (o_cnt r =? o_cnt inp) && (o_lo r =? 0) && (o_len r =? o_len inp) && (o_adv r =? o_adv inp).
-
-(* ... and the run did not go through cutRun on this call: it is not the last text run of its line (fillUntil appended it uncut;
-   the last text run of a line is always the candidate cut by processBreakOption, whose Advance is recomputed), or the line
-   is the single-run fast path of WrapParagraph taken on an input whose glyphs an earlier call had already edited *)
-Definition last_text_run (tsrc : Z) (line : list out) (r : out) : bool :=
-  match rev (text_runs tsrc line) with x :: _ => out_eqb x r | [] => false end.
-Definition f6_run (c : case) (st0 : store) (tsrc : Z) (line : list out) (r : out) : bool :=
-  let inp := znth out_zero (case_runs c) (o_src r) in
-  stale_whole_run c r
-  && (negb (last_text_run tsrc line r)
-      || (match case_runs c with [_] => true | _ => false end && negb (o_adv inp =? sum_adv (out_glyphs st0 inp)))).
-
 Definition c02_kind (c : case) (st0 st1 : store) (cl : call) : nat :=
   let lines := call_lines cl in
   let tsrc := case_tsrc c in
   if conservation_structure (case_n c) (case_runs c) st0 st1 tsrc lines (call_truncated cl) then
-    if conservation_advance st1 tsrc lines then 0%nat
-    else if forallb (fun line => forallb (fun r => advance_ok st1 r || f6_run c st0 tsrc line r) (text_runs tsrc line)) lines
-         then 10%nat else 2%nat
+    if conservation_advance st1 tsrc lines then 0%nat else 2%nat
   else 2%nat.
 
 Definition oracle_kinds (c : case) (f : case -> store -> store -> call -> nat) : list nat :=
